@@ -19,7 +19,13 @@
    Two switches describe the code before/after the proposed fixes (c20_cfg):
      cfg_setitem_wrapped : __setitem__ has the same NumPy fallback as __getitem__   (fixes/C20-1)
      cfg_copy_self       : FieldVector.copy() without arguments copies self         (fixes/C20-2)
-   c20_cfg_current = (false,false) is /repo as it stands, c20_cfg_fixed = (true,true). *)
+     cfg_npv_stride      : NumPyVector addresses entry i at data()[i*stride]          (fixes/C20-3)
+   c20_cfg_current = all false is /repo before the three fix commits (9a703a8, 5aaab64, c31dbb5),
+   c20_cfg_fixed = all true is /repo with them.
+
+   Also modelled: Dune::Python::NumPyVector (numpyvector.hh) as a strided view (pointer, stride, size: the
+   buffer_info of the wrapped array) over the same heap, and the TupleVector wrapper (tuplevector.hh +
+   dune.common.TupleVector) as a list of tagged values. *)
 From Coq Require Import List ZArith QArith Qabs Qreduction Bool String Ascii DecimalString.
 Import ListNotations.
 
@@ -43,7 +49,7 @@ Definition c20_alloc (H : c20_heap) (vals : list Q) : c20_heap * list nat :=
   ((H ++ vals)%list, seq (List.length H) (List.length vals)).
 
 (* ---------------------------------------------------------------- results *)
-Inductive c20_exc := C20_IndexError | C20_TypeError | C20_ValueError.
+Inductive c20_exc := C20_IndexError | C20_TypeError | C20_ValueError | C20_RuntimeError.
 Inductive c20_res (A : Type) := C20_Ok (a : A) | C20_Exc (e : c20_exc).
 Arguments C20_Ok {A} a.
 Arguments C20_Exc {A} e.
@@ -53,9 +59,9 @@ Record c20_obj := { c20_k : c20_kind; c20_cells : list nat }.
 Record c20_state := { c20_H : c20_heap; c20_regs : list c20_obj }.
 Definition c20_init : c20_state := {| c20_H := []; c20_regs := [] |}.
 
-Record c20_cfg := { cfg_setitem_wrapped : bool; cfg_copy_self : bool }.
-Definition c20_cfg_current := {| cfg_setitem_wrapped := false; cfg_copy_self := false |}.
-Definition c20_cfg_fixed := {| cfg_setitem_wrapped := true; cfg_copy_self := true |}.
+Record c20_cfg := { cfg_setitem_wrapped : bool; cfg_copy_self : bool; cfg_npv_stride : bool }.
+Definition c20_cfg_current := {| cfg_setitem_wrapped := false; cfg_copy_self := false; cfg_npv_stride := false |}.
+Definition c20_cfg_fixed := {| cfg_setitem_wrapped := true; cfg_copy_self := true; cfg_npv_stride := true |}.
 
 Inductive c20_obs :=
   | C20_ObsObj (k : c20_kind) (vals : list Q)      (* an object result (it becomes the next register) *)
@@ -117,7 +123,75 @@ Definition c20_slice_indices (n : nat) (start stop step : option Z) : c20_res (l
   let len := if st <? 0 then (if b <? a then (a - b - 1) / (- st) + 1 else 0)
              else (if a <? b then (b - a - 1) / st + 1 else 0) in
   C20_Ok (map (fun k => Z.to_nat (a + Z.of_nat k * st)) (seq 0 (Z.to_nat len))).
+
+(* ---------------------------------------------------------------- NumPyVector (numpyvector.hh) *)
+(* pybind11::buffer_info of a one-dimensional array, in units of entries: ptr, strides[0]/sizeof(T), shape[0].
+   An array object of the model is the list of its cells; NumPy arrays obtained from contiguous storage by
+   slicing are arithmetic progressions of cells (c20_strided in C20_Spec.v), which is what buffer_info describes. *)
+Record c20_binfo := { c20_bi_ptr : Z; c20_bi_stride : Z; c20_bi_size : nat }.
+Definition c20_buffer_info (cells : list nat) : c20_binfo :=
+  {| c20_bi_ptr := Z.of_nat (nth 0 cells O);
+     c20_bi_stride := if Nat.leb 2 (List.length cells) then Z.of_nat (nth 1 cells O) - Z.of_nat (nth 0 cells O) else 1;
+     c20_bi_size := List.length cells |}.
+(* operator[] / vec_access:  data()[ index * stride_ ]   (before fix c31dbb5: data()[ index ]) *)
+Definition c20_npv_addr (cfg : c20_cfg) (bi : c20_binfo) (i : nat) : Z :=
+  if cfg_npv_stride cfg then c20_bi_ptr bi + Z.of_nat i * c20_bi_stride bi else c20_bi_ptr bi + Z.of_nat i.
+(* the cells entry 0 .. size-1 of a NumPyVector wrapped around the array live in; None = some access would be
+   outside the heap (undefined behaviour in C++: not modelled) *)
+Definition c20_npv_cells (cfg : c20_cfg) (H : c20_heap) (cells : list nat) : option (list nat) :=
+  let bi := c20_buffer_info cells in
+  let addrs := map (c20_npv_addr cfg bi) (seq 0 (c20_bi_size bi)) in
+  if forallb (fun a => (0 <=? a) && (a <? Z.of_nat (List.length H))) addrs then Some (map Z.to_nat addrs) else None.
 Local Close Scope Z_scope.
+
+(* ---------------------------------------------------------------- TupleVector (tuplevector.hh, dune.common.TupleVector) *)
+Inductive c20_tval := C20_TFloat (q : Q) | C20_TInt (z : Z) | C20_TVec (l : list Q).
+Inductive c20_ttype := C20_TyDouble | C20_TyInt | C20_TyFV (n : nat).
+(* _cppTypesFromTuple: float -> double, int -> int, FieldVector of size n -> Dune::FieldVector<double,n> *)
+Definition c20_tv_type (v : c20_tval) : c20_ttype :=
+  match v with C20_TFloat _ => C20_TyDouble | C20_TInt _ => C20_TyInt | C20_TVec l => C20_TyFV (List.length l) end.
+(* x[i].cast< tuple_element_t<i,TV> >(): a Python int converts to double; everything else must already have the type *)
+Definition c20_tv_cast (t : c20_ttype) (v : c20_tval) : option c20_tval :=
+  match t, v with
+  | C20_TyDouble, C20_TFloat _ => Some v
+  | C20_TyDouble, C20_TInt z => Some (C20_TFloat (inject_Z z))
+  | C20_TyInt, C20_TInt _ => Some v
+  | C20_TyFV n, C20_TVec l => if Nat.eqb (List.length l) n then Some v else None
+  | _, _ => None
+  end.
+Fixpoint c20_tv_cast_all (ts : list c20_ttype) (x : list c20_tval) : option (list c20_tval) :=
+  match ts, x with
+  | [], [] => Some []
+  | t :: ts', v :: x' =>
+      match c20_tv_cast t v, c20_tv_cast_all ts' x' with Some v', Some r => Some (v' :: r) | _, _ => None end
+  | _, _ => None                                       (* assert( tuple_size_v<TV> == x.size() ) *)
+  end.
+(* TupleVector(args...): the wrapper type is generated from the types of the arguments, then py::init casts each *)
+Definition c20_tv_construct (x : list c20_tval) : option (list c20_tval) := c20_tv_cast_all (map c20_tv_type x) x.
+(* __getitem__( size_t index ): if (index >= self.size()) throw index_error *)
+Definition c20_tv_getitem (tv : list c20_tval) (i : Z) : c20_res c20_tval :=
+  match c20_cpp_index (List.length tv) i with
+  | C20_Ok j => C20_Ok (nth j tv (C20_TInt 0))
+  | C20_Exc e => C20_Exc e
+  end.
+Fixpoint c20_tv_replace (tv : list c20_tval) (j : nat) (v : c20_tval) : list c20_tval :=
+  match tv, j with
+  | [], _ => []
+  | _ :: t, O => v :: t
+  | h :: t, S j' => h :: c20_tv_replace t j' v
+  end.
+(* __setitem__: self[i] = value.cast< tuple_element_t<i,TV> >(); a failing cast is re-thrown (cast_error: RuntimeError) *)
+Definition c20_tv_setitem (tv : list c20_tval) (i : Z) (v : c20_tval) : c20_res (list c20_tval) :=
+  match c20_cpp_index (List.length tv) i with
+  | C20_Ok j =>
+      match c20_tv_cast (c20_tv_type (nth j tv (C20_TInt 0))) v with
+      | Some v' => C20_Ok (c20_tv_replace tv j v')
+      | None => C20_Exc C20_RuntimeError
+      end
+  | C20_Exc e => C20_Exc e
+  end.
+(* copy(): new TV(self) -- by value *)
+Definition c20_tv_copy (tv : list c20_tval) : list c20_tval := tv.
 
 (* ---------------------------------------------------------------- entry arithmetic (exact) *)
 Definition c20_qadd (a b : Q) : Q := Qred (a + b).
@@ -211,7 +285,12 @@ Inductive c20_op :=
   | C20_IAdd (r s : nat) | C20_ISub (r s : nat) | C20_IAddL (r : nat) (l : list Q)
   | C20_IMulS (r : nat) (q : Q) | C20_IDivS (r : nat) (q : Q) | C20_IAddS (r : nat) (q : Q) | C20_ISubS (r : nat) (q : Q)
   | C20_Assign (r s : nat)
-  | C20_Norm1 (r : nat) | C20_Norm22 (r : nat) | C20_NormInf (r : nat).
+  | C20_Norm1 (r : nat) | C20_Norm22 (r : nat) | C20_NormInf (r : nat)
+  (* `npv` scripts: NumPy arrays accessed from C++ through a NumPyVector wrapped around register r *)
+  | C20_NewArr (vals : list Q)                 (* np.array([...]) *)
+  | C20_NLen (r : nat) | C20_NGet (r : nat) (i : nat) | C20_NSet (r : nat) (i : nat) (x : Q)
+  | C20_NIMulS (r : nat) (q : Q) | C20_NIDivS (r : nat) (q : Q) | C20_NIAddS (r : nat) (q : Q) | C20_NISubS (r : nat) (q : Q)
+  | C20_NNorm1 (r : nat) | C20_NNorm22 (r : nat) | C20_NNormInf (r : nat).
 
 Definition c20_vals (st : c20_state) (o : c20_obj) : list Q := c20_read_all (c20_H st) (c20_cells o).
 Definition c20_size (o : c20_obj) : nat := List.length (c20_cells o).
@@ -249,6 +328,18 @@ Definition c20_with_operand (st : c20_state) (o : c20_obj) (s : nat) (f : list Q
 (* in-place update of the cells of o; the result is the same Python object *)
 Definition c20_inplace (st : c20_state) (o : c20_obj) (vals : list Q) : c20_state * c20_obs :=
   (c20_set_heap st (c20_write_all (c20_H st) (c20_cells o) vals), C20_ObsNone).
+
+(* on the cells a NumPyVector wrapped around register r addresses *)
+Definition c20_on_npv (cfg : c20_cfg) (st : c20_state) (r : nat) (f : list nat -> c20_state * c20_obs) : c20_state * c20_obs :=
+  match nth_error (c20_regs st) r with
+  | Some o => match c20_npv_cells cfg (c20_H st) (c20_cells o) with
+              | Some cs => f cs
+              | None => (st, C20_ObsUnmodelled)
+              end
+  | None => (st, C20_ObsUnmodelled)
+  end.
+Definition c20_npv_inplace (st : c20_state) (cs : list nat) (vals : list Q) : c20_state * c20_obs :=
+  (c20_set_heap st (c20_write_all (c20_H st) cs vals), C20_ObsNone).
 
 Definition c20_step (cfg : c20_cfg) (st : c20_state) (op : c20_op) : c20_state * c20_obs :=
   match op with
@@ -335,6 +426,21 @@ Definition c20_step (cfg : c20_cfg) (st : c20_state) (op : c20_op) : c20_state *
   | C20_Norm1 r => c20_on_vec st r (fun o => (st, C20_ObsScalar (c20_one_norm (c20_vals st o))))
   | C20_Norm22 r => c20_on_vec st r (fun o => (st, C20_ObsScalar (c20_two_norm2 (c20_vals st o))))
   | C20_NormInf r => c20_on_vec st r (fun o => (st, C20_ObsScalar (c20_inf_norm (c20_vals st o))))
+  | C20_NewArr vals => c20_push_new st C20_Arr vals
+  | C20_NLen r => c20_on_npv cfg st r (fun cs => (st, C20_ObsInt (Z.of_nat (List.length cs))))
+  | C20_NGet r i => c20_on_npv cfg st r (fun cs =>
+      if Nat.ltb i (List.length cs) then (st, C20_ObsScalar (c20_read (c20_H st) (nth i cs O))) else (st, C20_ObsUnmodelled))
+  | C20_NSet r i x => c20_on_npv cfg st r (fun cs =>
+      if Nat.ltb i (List.length cs) then (c20_set_heap st (c20_write (c20_H st) (nth i cs O) x), C20_ObsNone)
+      else (st, C20_ObsUnmodelled))
+  | C20_NIMulS r q => c20_on_npv cfg st r (fun cs => c20_npv_inplace st cs (c20_vscale q (c20_read_all (c20_H st) cs)))
+  | C20_NIDivS r q => c20_on_npv cfg st r (fun cs =>
+      if c20_qeqb q 0 then (st, C20_ObsUnmodelled) else c20_npv_inplace st cs (c20_vdiv q (c20_read_all (c20_H st) cs)))
+  | C20_NIAddS r q => c20_on_npv cfg st r (fun cs => c20_npv_inplace st cs (c20_vadds q (c20_read_all (c20_H st) cs)))
+  | C20_NISubS r q => c20_on_npv cfg st r (fun cs => c20_npv_inplace st cs (c20_vsubs q (c20_read_all (c20_H st) cs)))
+  | C20_NNorm1 r => c20_on_npv cfg st r (fun cs => (st, C20_ObsScalar (c20_one_norm (c20_read_all (c20_H st) cs))))
+  | C20_NNorm22 r => c20_on_npv cfg st r (fun cs => (st, C20_ObsScalar (c20_two_norm2 (c20_read_all (c20_H st) cs))))
+  | C20_NNormInf r => c20_on_npv cfg st r (fun cs => (st, C20_ObsScalar (c20_inf_norm (c20_read_all (c20_H st) cs))))
   end.
 
 (* a result that is an existing register is pushed again (the script refers to results by position) *)
